@@ -38,8 +38,8 @@ PROPS = {
         "assumptions": ["net.Conn.Read never returns (0, nil)"],
     },
     "C01": {
-        "streams": conn_streams(3000, 60000, extra=[("multiconn", 150, 3000), ("scale", 12, 48), ("connctx", 10, 100)]),
-        "rule": "(scale) one dimension far beyond the replayed cases between real client and real service: frames of 1 MiB .. 16 MiB + 1 in both directions, 70 / 300 connections open at once, 5000 / 20000 calls on one connection, a more call with 20000 / 70000 replies; (multiconn) one service, 2/4/8 concurrent connections over a real unix socket, each with its own stream and segmentation, replies compared per connection with the model of that connection alone; (conn) random registry x sequence of 0-25 request frames (valid calls with scripted handler behaviour carried in the parameters, built-in calls, malformed frames) x segmentation; non-trivial = at least 2 calls on the connection or a handler script with at least 2 actions",
+        "streams": conn_streams(3000, 60000, extra=[("multiconn", 150, 3000), ("scale", 14, 56), ("connctx", 10, 100)]),
+        "rule": "(scale) one dimension far beyond the replayed cases between real client and real service: frames of 1 MiB .. 16 MiB + 1 in both directions, 70 / 300 connections open at once, 5000 / 20000 calls on one connection, a more call with 20000 / 70000 replies, a connection closed twice followed by 3 connections open at once (each gets only its own replies), two 1 MiB replies on two connections under way at the same time; (multiconn) one service, 2/4/8 concurrent connections over a real unix socket, each with its own stream and segmentation, replies compared per connection with the model of that connection alone; (conn) random registry x sequence of 0-25 request frames (valid calls with scripted handler behaviour carried in the parameters, built-in calls, malformed frames) x segmentation; non-trivial = at least 2 calls on the connection or a handler script with at least 2 actions",
         "trusted_base": [JSON_TB, "bufio.Reader modelled (lean/Varlink/Frame.lean)"],
         "assumptions": ["goroutine scheduling inside one handler is not modelled; N-connection runs sample it"],
     },
